@@ -68,9 +68,13 @@ def ordLoop (eqv gt : α → α → Bool) : List (FieldFlags × α × α) → In
     else if eqv x y then ordLoop eqv gt rest           -- if self.f == other.f: continue
     else if gt x y then 1 else -1                      -- return 1 if self.f > other.f else -1
 
-/-- `_make_ord._pane_ord`; `none` models `NotImplemented`. -/
+/-- `_make_ord._pane_ord`; `none` models `NotImplemented`:
+```
+if _unsubscripted(self.__class__) != _unsubscripted(other.__class__): return NotImplemented
+```
+(the same class test as `__eq__`: the generic parameters are ignored). -/
 def paneOrd (fs : List FieldFlags) (eqv gt : α → α → Bool) (a b : Inst α) : Option Int :=
-  if a.exact != b.exact then none
+  if a.origin != b.origin then none
   else some (ordLoop eqv gt (zip3 fs a.vals b.vals))
 
 /-- `__lt__`: `NotImplemented if o is NotImplemented else o < 0`. -/
@@ -213,8 +217,10 @@ private def q12 : Inst Int := ⟨5, 5, [1, 2]⟩
 #guard_msgs in #eval paneOrd fsXY ieq igt p12 p22
 /-- info: some 1 -/
 #guard_msgs in #eval paneOrd fsXY ieq igt p22 p12
+/-- info: some 0 -/
+#guard_msgs in #eval paneOrd fsXY ieq igt p12 p12'    -- C / C[int] are comparable (same un-subscripted class)
 /-- info: none -/
-#guard_msgs in #eval paneOrd fsXY ieq igt p12 p12'    -- NotImplemented across C / C[int]
+#guard_msgs in #eval paneOrd fsXY ieq igt p12 q12     -- NotImplemented across unrelated classes
 /-- info: [some true, some true, some false, some false] -/
 #guard_msgs in #eval [lt fsXY ieq igt p12 p22, le fsXY ieq igt p12 p22,
                       gt' fsXY ieq igt p12 p22, ge fsXY ieq igt p12 p22]
